@@ -97,7 +97,15 @@ impl<'a> Hist<'a> {
             name_num(x.xml_space_name()),
             name_num(x.xml_id_name())
         );
-        h.emit("idmap new".to_string(), resp);
+        let distinct = {
+            let x = &h.cur.xot;
+            x.no_namespace() != x.xml_namespace() && x.empty_prefix() != x.xml_prefix() && x.xml_space_name() != x.xml_id_name()
+        };
+        h.emit("idmap new".to_string(), resp.clone());
+        if !distinct {
+            h.fail("C08:builtin-ids-not-distinct", format!("a new store (Xot::new() / Xot::default()) answers the built-in ids {}", resp));
+        }
+        h.builtins();
         h
     }
 
